@@ -1,7 +1,10 @@
 // VU-v2 (C11): sig_v2::methods::create_string_to_sign block by block (verb, Content-MD5, Content-Type, Date/Expires, canonicalized
-// resource; the x-amz-* header block is NOT under contract), the sub-resource list, and the Expires check of v2_check_presigned_url.
+// x-amz-* headers, canonicalized resource), the sub-resource list, and the Expires check of v2_check_presigned_url.
 #![allow(dead_code, unused)]
+#![feature(pattern)]
 use vstd::prelude::*;
+use vstd::std_specs::iter::IteratorSpec;
+use core::str::pattern::Pattern;
 
 macro_rules! s3_error {
     ($source:expr, $code:ident) => { crate::error::S3Error::new(crate::error::S3ErrorCode::$code) };
@@ -172,6 +175,137 @@ pub fn v2_date_line(ans0: String, mode: Mode, qs: Option<&OrderedQs>, headers: &
     let mut ans = ans0;
     proof { reveal_strlit(""); }
 //@@ extract v2_date_match file=crates/s3s/src/sig_v2/methods.rs item="fn create_string_to_sign" from="match mode {" until="{ let mut last =" rewrites=closure:1:Option<&str>
+    ans
+}
+
+
+// ---- {CanonicalizedAmzHeaders} -----------------------------------------------------------------------------------------
+pub type Hdr = (Seq<char>, Seq<char>);
+/// every (name, value) pair of the request in OrderedHeaders' order (ascending lower-case names; uninterpreted)
+pub uninterp spec fn hall(h: OrderedHeaders<'_>) -> Seq<Hdr>;
+pub open spec fn hviews(v: Seq<(&str, &str)>) -> Seq<Hdr> { v.map_values(|p: (&str, &str)| (p.0@, p.1@)) }
+pub open spec fn sviews(v: Seq<&str>) -> Seq<Seq<char>> { v.map_values(|p: &str| p@) }
+/// equal names are adjacent (a consequence of the ascending order OrderedHeaders keeps)
+pub open spec fn same_name(h: Seq<Hdr>, i: int, j: int) -> bool { h[i].0 == h[j].0 }
+pub open spec fn grouped(h: Seq<Hdr>) -> bool {
+    forall|i: int, j: int, k: int| #![trigger same_name(h, i, j), h[k]] 0 <= i <= k <= j < h.len() && same_name(h, i, j) ==> h[k].0 == h[i].0
+}
+/// the values sent under `name`, in order
+pub open spec fn values_of(h: Seq<Hdr>, name: Seq<char>) -> Seq<Seq<char>>
+    decreases h.len()
+{
+    if h.len() == 0 { Seq::empty() }
+    else if h.last().0 == name { values_of(h.drop_last(), name).push(h.last().1) }
+    else { values_of(h.drop_last(), name) }
+}
+impl<'a> AsRef<[(&'a str, &'a str)]> for OrderedHeaders<'a> {
+    #[verifier::external_body]
+    fn as_ref(&self) -> (r: &[(&'a str, &'a str)])
+        ensures hviews(r@) == hall(*self), grouped(hall(*self))
+    { unimplemented!() }
+}
+impl<'a> OrderedHeaders<'a> {
+    /// the real return type is `impl Iterator<Item = &'a str>`; the shim names a concrete iterator type with vstd support
+    #[verifier::external_body]
+    pub fn get_all(&self, name: &str) -> (r: std::vec::IntoIter<&'a str>)
+        ensures sviews(r.remaining()) == values_of(hall(*self), name@), r.obeys_prophetic_iter_laws(), r.decrease() is Some
+    { unimplemented!() }
+}
+/// `str::trim`: the string without leading and trailing white space (uninterpreted; trusted)
+pub uninterp spec fn trim_ws(s: Seq<char>) -> Seq<char>;
+pub assume_specification[ str::trim ](s: &str) -> (r: &str)
+    ensures r@ == trim_ws(s@);
+/// `str::starts_with` over Pattern (trusted; the generic result is uninterpreted, its meaning for `&str` patterns is an axiom)
+pub uninterp spec fn sp_starts_with<P>(s: Seq<char>, p: P) -> bool;
+#[verifier::allow(undeclared_external_trait)]
+pub assume_specification<P: Pattern>[ str::starts_with::<P> ](s: &str, p: P) -> (r: bool)
+    ensures r == sp_starts_with(s@, p);
+#[verifier::external_body]
+pub proof fn axiom_starts_with_str(s: Seq<char>, p: &str)
+    ensures sp_starts_with(s, p) == p@.is_prefix_of(s)
+{}
+
+/// is `name` an x-amz-* header
+pub open spec fn amz(name: Seq<char>) -> bool { "x-amz-"@.is_prefix_of(name) }
+/// comma-separated value list, each value trimmed, no white space between values
+pub open spec fn joined(v: Seq<Seq<char>>) -> Seq<char>
+    decreases v.len()
+{
+    if v.len() == 0 { Seq::empty() }
+    else if v.len() == 1 { trim_ws(v[0]) }
+    else { joined(v.drop_last()) + seq![','] + trim_ws(v.last()) }
+}
+pub open spec fn first_occurrence(h: Seq<Hdr>, i: int) -> bool { forall|j: int| 0 <= j < i ==> #[trigger] h[j].0 != h[i].0 }
+/// AWS CanonicalizedAmzHeaders over the first n headers: for each distinct x-amz-* name (in header order)
+/// `name:value[,value…]\n`
+pub open spec fn amz_lines(h: Seq<Hdr>, n: int) -> Seq<char>
+    decreases n
+{
+    if n <= 0 { Seq::empty() }
+    else if amz(h[n - 1].0) && first_occurrence(h, n - 1) {
+        amz_lines(h, n - 1) + h[n - 1].0 + seq![':'] + joined(values_of(h, h[n - 1].0)) + seq!['\n']
+    } else { amz_lines(h, n - 1) }
+}
+/// name of the latest x-amz-* header among the first n ("" when there is none): what the local `last` holds
+pub open spec fn last_amz(h: Seq<Hdr>, n: int) -> Seq<char>
+    decreases n
+{
+    if n <= 0 { ""@ } else if amz(h[n - 1].0) { h[n - 1].0 } else { last_amz(h, n - 1) }
+}
+proof fn lemma_last_amz(h: Seq<Hdr>, n: int)
+    requires 0 <= n <= h.len()
+    ensures last_amz(h, n) == ""@ || exists|j: int| 0 <= j < n && #[trigger] h[j].0 == last_amz(h, n)
+    decreases n
+{
+    if n > 0 && !amz(h[n - 1].0) {
+        lemma_last_amz(h, n - 1);
+        if last_amz(h, n - 1) != ""@ {
+            let j = choose|j: int| 0 <= j < n - 1 && #[trigger] h[j].0 == last_amz(h, n - 1);
+            assert(h[j].0 == last_amz(h, n));
+        }
+    } else if n > 0 {
+        assert(h[n - 1].0 == last_amz(h, n));
+    }
+}
+/// with adjacent equal names, "`name == last`" is "the name occurred before"
+proof fn lemma_repeat(h: Seq<Hdr>, i: int)
+    requires 0 <= i < h.len(), grouped(h), amz(h[i].0)
+    ensures (h[i].0 == last_amz(h, i)) <==> !first_occurrence(h, i)
+{
+    reveal_strlit(""); reveal_strlit("x-amz-");
+    lemma_last_amz(h, i);
+    if h[i].0 == last_amz(h, i) {
+        assert(h[i].0.len() >= 6);
+        let j = choose|j: int| 0 <= j < i && #[trigger] h[j].0 == last_amz(h, i);
+        assert(h[j].0 == h[i].0);
+    }
+    if !first_occurrence(h, i) {
+        let j = choose|j: int| 0 <= j < i && #[trigger] h[j].0 == h[i].0;
+        assert(same_name(h, j, i));
+        assert(h[i - 1].0 == h[j].0);
+    }
+}
+proof fn lemma_values_nonempty(h: Seq<Hdr>, i: int)
+    requires 0 <= i < h.len()
+    ensures values_of(h, h[i].0).len() >= 1
+    decreases h.len()
+{
+    if h.last().0 != h[i].0 { 
+        assert(i < h.len() - 1);
+        assert(h.drop_last()[i] == h[i]);
+        lemma_values_nonempty(h.drop_last(), i);
+    }
+}
+
+pub fn v2_amz_headers(ans0: String, headers: &OrderedHeaders<'_>) -> (ret: String)
+    ensures
+        //# C11:v2.amz_headers.each_x_amz_name_once_with_comma_joined_trimmed_values
+        ret@ == ans0@ + amz_lines(hall(*headers), hall(*headers).len() as int),
+        //#-
+//@@ canary v2_amz_headers
+{
+    let mut ans = ans0;
+//@@ extract v2_amz_block file=crates/s3s/src/sig_v2/methods.rs item="fn create_string_to_sign" block="{CanonicalizedAmzHeaders}" rewrites=refpat,forcontinue
     ans
 }
 
